@@ -135,8 +135,9 @@ def expected_line(c):
         return None  # a unit counterpart has no field to read from: outside the domain
     # counterpart designator
     if has_member:
-        if variant and attr.get("member_kind") == "Unnamed":
-            c_des = "‹FBind(That)›"
+        tuple_src = form == "tuple" or (hint == "Unit" and member == "Unnamed")
+        if variant and (attr.get("member_kind") == "Unnamed" or (tuple_src and attr.get("member_kind") is None)):
+            c_des = "‹FBind(That)›"   # payload of a tuple-form counterpart variant is bound as f{index}
         else:
             c_des = "‹That›"
     elif form == "tuple" or (hint == "Unit" and member == "Unnamed"):
